@@ -458,6 +458,18 @@ func TestVerifC06Faithful(t *testing.T) {
 		if p := vf.Validate(); len(p) > 0 {
 			t.Fatalf("harness: own file not well-formed: %v", p)
 		}
+		if rapid.IntRange(0, 2).Draw(t, "damagedCopyFirst") == 0 {
+			// Parse is a function of its input: what it was given before - here one or two damaged copies of the
+			// same file, with the same names - must not matter to what it makes of the well-formed file
+			for i, n := 0, rapid.IntRange(1, 2).Draw(t, "ndamaged"); i < n; i++ {
+				damaged := append([]byte(nil), data...)
+				c06Mutate(t, damaged, vf)
+				if _, _, viol := c06Parse(damaged); viol != "" {
+					t.Fatalf("%s\ninput: %s", viol, c06Describe(damaged))
+				}
+			}
+			vstats.Label("parsedDamagedCopyFirst")
+		}
 		raw := map[string]uint64{}
 		buckets := map[uint32]int{}
 		stack, collide := false, false
